@@ -11,4 +11,5 @@ for p in "$@"; do
   echo "$(basename $dir) $p :: $res"
 done
 git -C /repo checkout -- .
+git -C /verif checkout -- evidence   # evidence written on a changed tree is not evidence
 git -C /repo status --short
